@@ -53,6 +53,10 @@ type c15MakeCase struct {
 	// and answers for everybody else; no template can be demanded then, and none may be handed out
 	// for an event the rules refuse
 	SenderQuerierErr bool `json:"sender_querier_err,omitempty"`
+	// StaleAuth: the template's auth_events were selected a moment before the state that is handed
+	// back with it ("create-only": they name the create event alone; "none": nothing). The template
+	// must be judged by that state, whatever its own list says.
+	StaleAuth string `json:"stale_auth,omitempty"`
 }
 
 var c15AllowPool = []string{"!space1:local.example", "!space2:other.example", "!space3:local.example"}
@@ -110,6 +114,12 @@ func c15TemplateBuilder(c c15MakeCase, b *c15Builder, rec *c15BuilderRec) func(*
 			return nil, nil, fmt.Errorf("c15: proto content is not a JSON object")
 		}
 		tree := c15MemberTree(b, p.Type, p.SenderID, p.StateKey, p.RoomID, content)
+		switch c.StaleAuth {
+		case "create-only":
+			tree = c15MemberTreeAuth(b, p.Type, p.SenderID, p.StateKey, p.RoomID, content, []string{b.CreateID})
+		case "none":
+			tree = c15MemberTreeAuth(b, p.Type, p.SenderID, p.StateKey, p.RoomID, content, []string{})
+		}
 		rec.Tree = tree
 		pdu, err := raParsePDU(c.Version, tree)
 		if err != nil {
@@ -335,6 +345,9 @@ func c15MakeCheck(ctx *vfCtx, c c15MakeCase) {
 	}
 
 	// ---- classes
+	if c.StaleAuth != "" {
+		ctx.Class("template-auth-events-stale/" + c.StaleAuth)
+	}
 	switch {
 	case allGood:
 		ctx.Class("all-guards-hold")
@@ -441,6 +454,9 @@ func c15MakeGen(leave bool) func(t *rapid.T) c15MakeCase {
 		c.Builder = "ok"
 		c.RemoteVersions = []string{c.Version}
 		c.SenderQuerierErr = rapid.IntRange(0, 5).Draw(t, "senderQuerierErr") == 0
+		if rapid.IntRange(0, 3).Draw(t, "staleAuth") == 0 {
+			c.StaleAuth = rapid.SampledFrom([]string{"create-only", "none"}).Draw(t, "staleAuthKind")
+		}
 		if rapid.Bool().Draw(t, "moreVersions") {
 			c.RemoteVersions = append([]string{"1", "10"}, c.Version, "org.example.unknown")
 		}
